@@ -292,7 +292,8 @@ def check(pid, tier, seed):
     nin = inputs_unchanged(exe, plain2, verdict, "C03")
     # entries without value on either side (a key alone on its line, `k=`, a setter with an empty text): the override's entry
     # replaces the base's value like any other
-    r3, recs3, total3 = export("MC_Merge", {"MaxLen": maxlen - 1, "Export": "TRUE", "Hdr": "FALSE", "NoV": "TRUE"}, ["MergeIsRef", "WithinBounds", "Complete"], seed=seed)
+    r3, recs3, total3 = export("MC_Merge", {"MaxLen": maxlen - 1, "Export": "TRUE", "Hdr": "FALSE", "NoV": "TRUE"}, ["MergeIsRef", "WithinBounds", "Complete"], seed=seed,
+                                sample=1 if tier == "quick" else 4)      # (thorough: over a million pairs - every 4th is replayed, memory)
     recs3 = [x for x in recs3 if any(not e["v"] for e in x["b"] + x["o"])]
     run_pairs(exe, [(x["b"], x["o"]) for x in recs3], verdict, [x["exp"] for x in recs3], i0=1)
     # random larger pairs, validated by TLC
